@@ -5,8 +5,9 @@ cd /repo || exit 2
 if ! git diff --quiet; then echo "/repo has uncommitted changes"; exit 2; fi
 git apply "$patch" || { echo "patch does not apply"; exit 2; }
 for id in "$@"; do
-  (cd /verif && ./check $id --tier quick 2>&1 | grep -E "VIOLATION|KNOWN-FINDING|HARNESS-FAILURE|\[check\] $id" | cut -c1-300)
-  echo "exit=$?"
+  out=$(cd /verif && ./check $id --tier quick 2>&1); rc=$?
+  echo "$out" | grep -E "VIOLATION|HARNESS-FAILURE|\[check\] $id quick:" | cut -c1-260
+  echo "RESULT $id exit=$rc"
 done
-git -C /repo checkout -- . 
+git -C /repo checkout -- .
 git -C /repo status --short | head
